@@ -4,6 +4,7 @@ import (
 	"fmt"
 	"hash/fnv"
 	"math"
+	"os"
 	"strings"
 
 	"golang.org/x/tools/go/ssa"
@@ -333,15 +334,17 @@ func (e *OpEngine) checkGradients(n *Node, c *Call, caseName, key, pos string, o
 		return
 	}
 	st, serr := splitResult(sres)
-	if serr {
+	if serr && !n.SpecRejected {
 		e.find("S1b.operands", key, "constructor-operands", pos,
 			"the tensors handed to the gradient constructor are not a valid instance of the operation [instance "+c.Label+"]")
 		return
 	}
-	sp, _ := w.AsTensor(st)
-	yi := w.InfoOf(n.Result)
-	si := w.InfoOf(sp)
-	yi.Elem, yi.Rng, yi.Has = si.Elem, si.Rng, true
+	if !serr {
+		sp, _ := w.AsTensor(st)
+		yi := w.InfoOf(n.Result)
+		si := w.InfoOf(sp)
+		yi.Elem, yi.Rng, yi.Has = si.Elem, si.Rng, true
+	}
 	dy := w.Dims(n.Result)
 	G := w.LeafTensor("G", dy, spec.Rng(-1e3, 1e3), nil)
 	yg, _ := w.GctxOf(n.Result)
@@ -397,6 +400,9 @@ func (e *OpEngine) checkGradients(n *Node, c *Call, caseName, key, pos string, o
 				fmt.Sprintf("gradient shape %s differs from the operand's shape %s [instance %s]", polys(dg), polys(dt), label))
 			continue
 		}
+		if n.SpecRejected {
+			continue // no defined value for a call outside the specification; only "does not fail, right shape"
+		}
 		// value
 		e.VJPChecks++
 		e.did("A2.vjp", ckey)
@@ -424,7 +430,7 @@ func (e *OpEngine) checkGradients(n *Node, c *Call, caseName, key, pos string, o
 		if eqs := e.M.SymEqualities(); len(eqs) > 0 {
 			got, want = got.SubstSym(eqs), want.SubstSym(eqs)
 		}
-		if got.Key() != want.Key() {
+		if !e.sameExpr(got, want, dt) {
 			verdict, wit := e.numericCompare(got, want, dt)
 			switch verdict {
 			case 1:
@@ -554,6 +560,24 @@ func leafValEdge(salt int) func(name string, idx []int64) float64 {
 
 // numericCompare returns 1 when a point separating the formulas is found (definite disagreement),
 // 0 when none was found (undecided).  It evaluates the two EXTRACTED FORMULAS, never repository code.
+// sameExpr: equal normal forms, or equal in every region of the index space cut out by the integer
+// conditions of their indicator functions (piecewise results of Concat / Slice / Patch compositions).
+func (e *OpEngine) sameExpr(got, want sym.Expr, dims []sym.Poly) bool {
+	if got.Key() == want.Key() {
+		return true
+	}
+	ctx := append([]sym.Constraint{}, e.M.PathConstraints()...)
+	for i, d := range dims {
+		ix := sym.PAtom(spec.IxName(i))
+		ctx = append(ctx, sym.CGe(ix, sym.PInt(0)), sym.CLt(ix, d))
+	}
+	if sym.PiecewiseEqual(got, want, ctx) {
+		e.PiecewiseProofs++
+		return true
+	}
+	return false
+}
+
 func (e *OpEngine) numericCompare(got, want sym.Expr, dims []sym.Poly) (int, string) {
 	cs := e.M.PathConstraints()
 	// special points: zeros/ones/negatives, plus every constant of either formula and its neighbours
@@ -598,6 +622,12 @@ func (e *OpEngine) numericCompare(got, want sym.Expr, dims []sym.Poly) (int, str
 			}
 		}
 		env := &sym.EvalEnv{Ints: map[string]int64{}, Syms: map[string]float64{spec.Tol: 1e-9}, Leaf: leafVal}
+		// symbols the path condition fixes (after `if lo == 0`) take that value
+		for n, v := range e.M.SymEqualities() {
+			if r, ok := v.Const(); ok {
+				env.Syms[n], _ = r.Float64()
+			}
+		}
 		symDefault := symTrials[trial%len(symTrials)]
 		edge := trial >= 6
 		if edge {
@@ -658,6 +688,184 @@ func (e *OpEngine) numericCompare(got, want sym.Expr, dims []sym.Poly) (int, str
 			}
 			if k < 0 {
 				break
+			}
+		}
+	}
+	// directed points: the path runs under a thin condition (|a-b| <= τ with a tiny τ, or an exact equality)
+	// that random points never satisfy; solve it for one element that occurs linearly, all others 0
+	type thin struct {
+		x      sym.Expr // expression to be steered
+		tau    sym.Expr // … to half of this value (zero Expr: to 0)
+		hasTau bool
+		c      *sym.Cond
+	}
+	var thins []thin
+	for _, c := range e.M.RealConds() {
+		switch c.Kind {
+		case sym.CAbsLE:
+			thins = append(thins, thin{c.E, c.Tau, true, c})
+		case sym.CRealEQ:
+			thins = append(thins, thin{c.E, sym.Expr{}, false, c})
+			for _, x := range sym.AbsArgs(c.E) {
+				thins = append(thins, thin{x, sym.Expr{}, false, c}) // abs(x) == 0
+			}
+		case sym.CRealGE, sym.CRealGT:
+			// τ - abs(x) >= 0 with a small positive constant τ
+			tau := 0.0
+			for _, v := range c.E.Constants() {
+				if v > 0 && v < 1e-6 && (tau == 0 || v < tau) {
+					tau = v
+				}
+			}
+			if tau > 0 {
+				for _, x := range sym.AbsArgs(c.E) {
+					thins = append(thins, thin{x, sym.NumF(tau), true, c})
+				}
+			}
+		}
+	}
+	for _, th := range thins {
+		c := th.c
+		name, idxP, k, ok := sym.LinearLeaf(th.x)
+		if !ok {
+			continue
+		}
+		mdl, ok := sym.Model(cs, 1, 4, nil)
+		if !ok {
+			continue
+		}
+		env := &sym.EvalEnv{Ints: map[string]int64{}, Syms: map[string]float64{spec.Tol: 1e-9}}
+		for kk, v := range mdl {
+			env.Ints[kk] = v
+		}
+		idx := make([]int64, len(idxP))
+		okIdx := true
+		for i, p := range idxP {
+			v, ok := p.Eval(env.Ints)
+			if !ok {
+				okIdx = false
+			}
+			idx[i] = v
+		}
+		if !okIdx {
+			continue
+		}
+		same := func(n string, ix []int64) bool {
+			if n != name || len(ix) != len(idx) {
+				return false
+			}
+			for i := range ix {
+				if ix[i] != idx[i] {
+					return false
+				}
+			}
+			return true
+		}
+		for _, base := range []float64{0, 1.5, -1.5} {
+			base := base
+			vL := 0.0
+			env.Leaf = func(n string, ix []int64) float64 {
+				if same(n, ix) {
+					return vL
+				}
+				return base
+			}
+			rest, err := evalWithDefaults(th.x, env, 1.25)
+			if err != nil {
+				continue
+			}
+			target := 0.0
+			if th.hasTau {
+				tv, err := evalWithDefaults(th.tau, env, 1.25)
+				if err != nil {
+					continue
+				}
+				target = tv / 2
+			}
+			vL = (target - rest) / k
+			if !e.realCondsHold(env) {
+				continue
+			}
+			a, err1 := evalWithDefaults(got, env, 1.25)
+			b, err2 := evalWithDefaults(want, env, 1.25)
+			if err1 != nil || err2 != nil || math.IsNaN(a) || math.IsNaN(b) || math.IsInf(a, 0) || math.IsInf(b, 0) {
+				continue
+			}
+			// relative comparison: the two sides are of the size of the tolerance here
+			if d := math.Abs(a - b); d > 1e-6*math.Max(math.Abs(a), math.Abs(b)) && (a == 0 || b == 0 || d > 1e-3*math.Max(math.Abs(a), math.Abs(b))) {
+				return 1, fmt.Sprintf("at %s with %s%v = %.6g and every other element %g (on the path condition %s): code formula gives %.6g, definition gives %.6g", sym.ModelString(mdl), name, idx, vL, base, c.String(), a, b)
+			}
+		}
+	}
+	// small lattice: with few distinct elements in play, every assignment from a handful of values (zero,
+	// positive, negative, small) is tried - this finds points on thin or oddly shaped path conditions
+	// (max(x,y) == 0, x > y ∧ y == 0, …) that random points miss
+	{
+		es := []sym.Expr{got, want}
+		for _, c := range e.M.RealConds() {
+			es = append(es, c.Exprs()...)
+		}
+		leaves := sym.LeafAtoms(es...)
+		if mdl, ok := sym.Model(cs, 1, 4, nil); ok && len(leaves) > 0 && len(leaves) <= 5 {
+			env := &sym.EvalEnv{Ints: map[string]int64{}, Syms: map[string]float64{spec.Tol: 1e-9}}
+			for kk, v := range mdl {
+				env.Ints[kk] = v
+			}
+			for n, v := range e.M.SymEqualities() {
+				if r, ok := v.Const(); ok {
+					env.Syms[n], _ = r.Float64()
+				}
+			}
+			keys := make([]string, len(leaves))
+			okKeys := true
+			for i, l := range leaves {
+				ix := make([]int64, len(l.Idx))
+				for j, p := range l.Idx {
+					v, ok := p.Eval(env.Ints)
+					if !ok {
+						okKeys = false
+					}
+					ix[j] = v
+				}
+				keys[i] = fmt.Sprintf("%s%v", l.Name, ix)
+			}
+			if okKeys {
+				lattice := []float64{0, -1.5, 1.5, 0.5, -0.5}
+				assign := map[string]float64{}
+				env.Leaf = func(n string, ix []int64) float64 {
+					if v, ok := assign[fmt.Sprintf("%s%v", n, ix)]; ok {
+						return v
+					}
+					return 0.25
+				}
+				total := 1
+				for range keys {
+					total *= len(lattice)
+				}
+				for code := 0; code < total; code++ {
+					c := code
+					for _, k := range keys {
+						assign[k] = lattice[c%len(lattice)]
+						c /= len(lattice)
+					}
+					if !e.realCondsHold(env) {
+						if os.Getenv("QVERIF_DEBUG") != "" {
+							for _, rc := range e.M.RealConds() {
+								v, err := rc.Eval(env)
+								fmt.Fprintf(os.Stderr, "DBG assign=%v cond=%s -> %v %v\n", assign, rc.String(), v, err)
+							}
+						}
+						continue
+					}
+					a, err1 := evalWithDefaults(got, env, 1.25)
+					b, err2 := evalWithDefaults(want, env, 1.25)
+					if err1 != nil || err2 != nil || math.IsNaN(b) || math.IsInf(b, 0) {
+						continue
+					}
+					if math.IsNaN(a) || math.IsInf(a, 0) || !closeEnough(a, b) {
+						return 1, fmt.Sprintf("at %s with elements %v: code formula gives %.6g, definition gives %.6g", sym.ModelString(mdl), assign, a, b)
+					}
+				}
 			}
 		}
 	}
